@@ -48,6 +48,10 @@ var c09Loops = []struct{ name, script string }{
 	{"loop-with-array-work", `a = 1..50; while (true) { foreach e in a { x = e; } }`},
 	{"loop-with-arithmetic-on-negative-and-float-operands", `a = 0 - 3; b = 2; f = 2.5; while (true) { x = b ** a; y = a ** b; z = b ** b; w = f ** a; u = a % b; q = a / b; p = a * a - b + f; m = (0 - 7) % 3; e = 0 ** a; o = 1 ** a; g = (0 - 1) ** a; }`},
 	{"loop-with-every-kind-of-built-in", `while (true) { s = sprintf("%d %s", 3, "x"); l = len(split("a,b,c", ",")); m = min(1, 2) + max(3, 4); k = keys({"a": 1}); q = sort([3, 1, 2]); r = reverse(q); j = join(r, "-"); i = int("12") + float("1.5"); u = upper(trim(" a ")) + lower("B") + string(3) + type(1.5); b = between(2, 1, 3) && match("abc", "b") && ("x" in ["x"]); h = string(hour(1700000000)) + weekday(0) + string(now() > 0); d = replace("aXb", /x/i, "-"); }`},
+	{"spin-inside-a-trailing-call", `function spin() { while (true) { y = 1; } } spin();`},
+	{"spin-inside-nested-trailing-calls", `function inner() { for (true) { z = 2; } } function outer() { inner(); } outer();`},
+	{"spin-inside-a-call-that-ends-a-block", `function spin(n) { while (n) { n = n + 0; } } if (C) { spin(1); }`},
+	{"spin-inside-a-call-that-ends-a-loop-body", `function spin(n) { while (n) { n = n + 0; } } foreach e in [1, 2] { spin(e); }`},
 	{"spin-after-a-completed-call", `function inc(x) { return x + 1; } i = inc(0); while (i > 0) { i++; }`},
 	{"spin-in-a-function-after-a-completed-call", `function inc(x) { return x + 1; } function spin() { n = inc(0); while (n > 0) { n++; } } spin(); return 1;`},
 	{"spin-after-a-loop-of-calls", `function inc(x) { return x + 1; } foreach e in [1, 2, 3] { q = inc(e); } while (true) { q = q; }`},
